@@ -890,20 +890,164 @@ func (P *Program) ResolveThroughCalls(v ssa.Value, depth int) []ssa.Value {
 	return out
 }
 
-// anchorPrefixes: product functions that the rules refer to by name. A call of any other product function with
+// anchorNames: the product functions that the rules refer to by name (frozen from the reviewed tree; a function
+// that is not listed - e.g. one extracted later - is a helper). A call of any other product function with
 // a body ("helper") is transparent for deep origin resolution: its result is described by what it returns, so
 // that extracting or inlining a helper does not change provenance.
-var anchorPrefixes = []string{
-	"indexing.", "util.", "(util.", "(*util.", "config.", "(*config.", "codes.", "reporting.", "(*reporting.",
-	"annotations.ExtractReceiverType", "annotations.ReadAllAnnotations", "annotations.parse", "(*annotations.PackageAnnotations).",
-	"ignore.ReadIgnoreAnnotations", "ignore.findInlineNode", "ignore.findNextNodeAfterComment", "ignore.parseIgnoreAnnotation",
-	"implements.", "testonly.CheckTestOnly", "immutable.CheckImmutable", "constructor.CheckConstructor", "packageonly.CheckPackageOnly",
+var anchorNames = map[string]bool{
+	"(*annotations.PackageAnnotations).AFact":            true,
+	"(*annotations.PackageAnnotations).ToInterfaceQuery": true,
+	"(*annotations.PackageAnnotations).ToTypeQuery":      true,
+	"(*config.Config).FilterFiles":                       true,
+	"(*config.Config).ShouldSkipFile":                    true,
+	"(*config.Config).WithExcludeChecks":                 true,
+	"(*config.Config).WithExcludePaths":                  true,
+	"(*config.Config).WithScanTests":                     true,
+	"(*reporting.Reporter).ReportViolation":              true,
+	"(*reporting.Reporter).ReportViolations":             true,
+	"(*reporting.Reporter).formatPrettyError":            true,
+	"(*reporting.Reporter).getFileLines":                 true,
+	"(*reporting.Reporter).readSourceLines":              true,
+	"(*util.AttachmentsMap).AddPkgAttachment":            true,
+	"(*util.AttachmentsMap).AddPkgFunctionAttachment":    true,
+	"(*util.AttachmentsMap).AddPkgTypeAttachment":        true,
+	"(*util.AttachmentsMap).AddPkgTypeFieldAttachment":   true,
+	"(*util.AttachmentsMap).AddPkgTypeMethodAttachment":  true,
+	"(*util.AttachmentsMap).Empty":                       true,
+	"(*util.AttachmentsMap).GetAttachmentsForFunction":   true,
+	"(*util.AttachmentsMap).GetAttachmentsForMethod":     true,
+	"(*util.AttachmentsMap).GetAttachmentsForType":       true,
+	"(*util.AttachmentsMap).GetPackageAttachments":       true,
+	"(*util.AttachmentsMap).HasAnyFunctionAttachments":   true,
+	"(*util.AttachmentsMap).HasAnyMethodAttachments":     true,
+	"(*util.AttachmentsMap).HasAnyTypeAttachments":       true,
+	"(*util.AttachmentsMap).HasPkgAttachment":            true,
+	"(*util.AttachmentsMap).HasPkgFunctionAttachment":    true,
+	"(*util.AttachmentsMap).HasPkgTypeAttachment":        true,
+	"(*util.AttachmentsMap).HasPkgTypeFieldAttachment":   true,
+	"(*util.AttachmentsMap).HasPkgTypeMethodAttachment":  true,
+	"(*util.IgnoreSet).Add":                              true,
+	"(*util.IgnoreSet).AddModuleIgnore":                  true,
+	"(*util.IgnoreSet).Contains":                         true,
+	"(*util.IgnoreSet).Empty":                            true,
+	"(*util.IgnoreSet).Len":                              true,
+	"(*util.IgnoreSet).ensureInitialized":                true,
+	"(*util.ImportMap).Add":                              true,
+	"(*util.ImportMap).Find":                             true,
+	"(*util.PackageAttachments).AddAttachment":           true,
+	"(*util.PackageAttachments).AddFunctionAttachment":   true,
+	"(*util.PackageAttachments).AddTypeAttachment":       true,
+	"(*util.PackageAttachments).AddTypeFieldAttachment":  true,
+	"(*util.PackageAttachments).AddTypeMethodAttachment": true,
+	"(*util.PackageAttachments).GetTypeAttachments":      true,
+	"(*util.PackageAttachments).HasAttachment":           true,
+	"(*util.PackageAttachments).HasFunctionAttachment":   true,
+	"(*util.PackageAttachments).HasTypeAttachment":       true,
+	"(*util.PackageAttachments).HasTypeFieldAttachment":  true,
+	"(*util.PackageAttachments).HasTypeMethodAttachment": true,
+	"(*util.TypeAssociationRegistry).Add":                true,
+	"(*util.TypeAssociationRegistry).Empty":              true,
+	"(*util.TypeAssociationRegistry).GetAssociated":      true,
+	"(*util.TypeAssociationRegistry).HasType":            true,
+	"(*util.TypeAssociationRegistry).Len":                true,
+	"(*util.TypeAssociationRegistry).Match":              true,
+	"(*util.TypeAttachments).AddAttachment":              true,
+	"(*util.TypeAttachments).AddFieldAttachment":         true,
+	"(*util.TypeAttachments).AddMethodAttachment":        true,
+	"(*util.TypeAttachments).HasAttachment":              true,
+	"(*util.TypeAttachments).HasFieldAttachment":         true,
+	"(*util.TypeAttachments).HasMethodAttachment":        true,
+	"(*util.TypesMap).Add":                               true,
+	"(*util.TypesMap).Contains":                          true,
+	"(*util.TypesMap).Empty":                             true,
+	"(*util.TypesMap).Len":                               true,
+	"(util.TypeAssociationRegistry).Add":                 true,
+	"(util.TypeAssociationRegistry).Empty":               true,
+	"(util.TypeAssociationRegistry).GetAssociated":       true,
+	"(util.TypeAssociationRegistry).HasType":             true,
+	"(util.TypeAssociationRegistry).Len":                 true,
+	"(util.TypeAssociationRegistry).Match":               true,
+	"(util.TypesMap).Add":                                true,
+	"(util.TypesMap).Contains":                           true,
+	"(util.TypesMap).Empty":                              true,
+	"(util.TypesMap).Len":                                true,
+	"annotations.ExtractReceiverType":                    true,
+	"annotations.ReadAllAnnotations":                     true,
+	"annotations.parseConstructorAnnotation":             true,
+	"annotations.parseImmutableAnnotation":               true,
+	"annotations.parseImplementsAnnotation":              true,
+	"annotations.parseMutableAnnotation":                 true,
+	"annotations.parsePackageOnlyAnnotation":             true,
+	"annotations.parseTestOnlyAnnotation":                true,
+	"codes.GetCodesForCheck":                             true,
+	"codes.GetDocumentationURL":                          true,
+	"config.CreateFlagSet":                               true,
+	"config.Default":                                     true,
+	"config.Empty":                                       true,
+	"config.FromEnv":                                     true,
+	"config.New":                                         true,
+	"config.ParseFlagsFromFlagSet":                       true,
+	"config.parseBool":                                   true,
+	"config.parseEnvValue":                               true,
+	"config.parseStringList":                             true,
+	"constructor.CheckConstructor":                       true,
+	"ignore.ReadIgnoreAnnotations":                       true,
+	"ignore.findInlineNode":                              true,
+	"ignore.findNextNodeAfterComment":                    true,
+	"ignore.parseIgnoreAnnotation":                       true,
+	"immutable.CheckImmutable":                           true,
+	"implements.FindMissingInterfaces":                   true,
+	"implements.FindMissingMethods":                      true,
+	"implements.FindMissingPackages":                     true,
+	"implements.LoadInterfaces":                          true,
+	"implements.LoadTypes":                               true,
+	"implements.ReportProblems":                          true,
+	"implements.checkImplementation":                     true,
+	"implements.convertTypesToInterfaceType":             true,
+	"implements.convertTypesToMethodType":                true,
+	"implements.extractMethodTypesFromTuple":             true,
+	"implements.extractMethodsFromInterface":             true,
+	"implements.extractMethodsFromNamedType":             true,
+	"implements.extractTypesFromTuple":                   true,
+	"implements.findInterfacesInPackage":                 true,
+	"implements.findTypesInPackage":                      true,
+	"implements.formatMethodSignature":                   true,
+	"implements.formatType":                              true,
+	"implements.formatTypeList":                          true,
+	"implements.getUnderlyingTypeName":                   true,
+	"implements.isPointerReceiver":                       true,
+	"implements.signaturesMatch":                         true,
+	"implements.typesMatch":                              true,
+	"indexing.BuildConstructorIndex":                     true,
+	"indexing.BuildImmutableTypesIndex":                  true,
+	"indexing.BuildMutableFieldsIndex":                   true,
+	"indexing.BuildPackageOnlyIndex":                     true,
+	"indexing.BuildTestOnlyFuncsIndex":                   true,
+	"indexing.BuildTestOnlyMethodsIndex":                 true,
+	"indexing.BuildTestOnlyTypesIndex":                   true,
+	"indexing.iterOverPackages":                          true,
+	"packageonly.CheckPackageOnly":                       true,
+	"reporting.NewReporter":                              true,
+	"reporting.calculateDisplayColumn":                   true,
+	"reporting.truncateString":                           true,
+	"testonly.CheckTestOnly":                             true,
+	"util.ExtractTypeInfo":                               true,
+	"util.ExtractTypeName":                               true,
+	"util.NewTypeAssociationRegistry":                    true,
+	"util.NewTypesMap":                                   true,
+	"util.matchesPathComponentWithSlash":                 true,
 }
 
 func (P *Program) isAnchor(fn *ssa.Function) bool {
-	n := FuncName(fn)
-	for _, p := range anchorPrefixes {
-		if strings.HasPrefix(n, p) {
+	for fn.Parent() != nil {
+		fn = fn.Parent()
+	}
+	if anchorNames[baseName(fn)] {
+		return true
+	}
+	// functions handing out function values (iterators) are described by their call, not looked into
+	if res := fn.Signature.Results(); res.Len() == 1 {
+		if _, isFunc := res.At(0).Type().Underlying().(*types.Signature); isFunc {
 			return true
 		}
 	}
